@@ -55,7 +55,9 @@ def BOUNDS(tier):
 
 def configs(tier):
     c = [{"kind": "route", "min": 1.0}, {"kind": "route", "min": 5.0},
-         {"kind": "route", "min": 2.0}]
+         {"kind": "route", "min": 2.0},
+         {"kind": "route", "min": 5.0, "user": True},
+         {"kind": "route", "min": 1.0, "user": True}]
     for b in ("hg19", "hg38"):
         for first in range(len(c06.OPS)):
             c.append({"genome": b, "first": first, "nops": 2, "maxsz": 2, "starts": 2,
@@ -172,31 +174,44 @@ def run_route(cfg):
     plan = {"cn": [["1", "1"]], "major": {0: [{"1": 2}]}, "minor": {(0, 0): 1}}
     state = {}
 
+    extra = {"display_format": True, "debug_novel": True, "max_minor_solutions": 2}
+    kw = {"cn_solution": ["1", "1"], "profile_name": None} if cfg.get("user") else {}
+
     def run():
         out = {}
         for kind in ("sam", "dump"):
             h = genoharness.Harness(plan, lambda k, i: 1.0, avg_cov=S(avg), kind=kind)
             try:
-                h.run(params={"min_avg_coverage": cfg["min"]})
+                h.run(params={"min_avg_coverage": cfg["min"], **extra}, **kw)
                 out[kind] = "ok"
             except AldyException:
                 out[kind] = "reject"
+            out[kind + "_params"] = h.seen_profile
         return out
 
     for dec, pc, out in eng.explore(run, base):
-        good = out["sam"] == out["dump"]
+        good = out["sam"] == out["dump"] and out["sam_params"] == out["dump_params"]
         st, mdl = eng.prove([], z3.BoolVal(good))
         want = "reject" if eng.prove([], avg < cfg["min"])[0] == "unsat" else "ok"
-        ob(res, f"route/min_avg_coverage={cfg['min']}: a run from the dump accepts/rejects "
-                "exactly like the original run with the same parameter",
+        ob(res, f"route/min_avg_coverage={cfg['min']}{'/user' if cfg.get('user') else ''}: "
+                "a run from the dump accepts/rejects like the original run and the stages "
+                "see the same parameters",
            "holds" if good and out["dump"] == want else "sat")
         if not (good and out["dump"] == want):
             st, mdl = eng.satisfiable([])
             av = float(symx.model_value(mdl, avg)) if mdl is not None else 3.0
+            dp = out.get("dump_params") or {}
+            sp = out.get("sam_params") or {}
+            diffp = {k: (sp.get(k), dp.get(k)) for k in set(sp) | set(dp)
+                     if sp.get(k) != dp.get(k)}
             res["violations"].append({
-                "what": f"average depth {av}, min_avg_coverage={cfg['min']}: original run "
-                        f"{out['sam']}, run from its dump {out['dump']}", "key": "dump-route",
-                "replay": {"kind": "route", "avg": av, "min": cfg["min"]}})
+                "what": f"average depth {av}, min_avg_coverage={cfg['min']}"
+                        f"{' (user-supplied structure)' if cfg.get('user') else ''}: "
+                        f"original run {out['sam']}, run from its dump {out['dump']}; "
+                        f"parameters in force at the stages differ: {diffp}",
+                "key": "dump-route",
+                "replay": {"kind": "route", "avg": av, "min": cfg["min"],
+                           "user": bool(cfg.get("user"))}})
     seen = {}
     for v in res["violations"]:
         seen.setdefault(v["key"], v)
@@ -211,13 +226,15 @@ def replay_route(o):
 
     plan = {"cn": [["1", "1"]], "major": {0: [{"1": 2}]}, "minor": {(0, 0): 1}}
     out = {}
+    extra = {"display_format": True, "debug_novel": True, "max_minor_solutions": 2}
+    kw = {"cn_solution": ["1", "1"], "profile_name": None} if o.get("user") else {}
     for kind in ("sam", "dump"):
         h = genoharness.Harness(plan, lambda k, i: 1.0, avg_cov=o["avg"], kind=kind)
         try:
-            h.run(params={"min_avg_coverage": o["min"]})
-            out[kind] = "ok"
+            h.run(params={"min_avg_coverage": o["min"], **extra}, **kw)
+            out[kind] = ("ok", h.seen_profile)
         except AldyException:
-            out[kind] = "reject"
+            out[kind] = ("reject", h.seen_profile)
     return out["sam"] != out["dump"], f"depth {o['avg']} min {o['min']}: {out}"
 
 
